@@ -5,6 +5,7 @@ use crate::driver::CheckDef;
 use crate::ensure;
 use crate::refmodel::*;
 use crate::runner::*;
+use proptest::prelude::*;
 use simple_dns::rdata::RData;
 use simple_dns::{CharacterString, Label, Name, Packet, Question, ResourceRecord, QCLASS, QTYPE, TYPE};
 use std::collections::hash_map::DefaultHasher;
@@ -251,14 +252,53 @@ fn check_mutated(input: &super::c01::Mutated, case: &mut Case) -> Result<(), Fai
     Ok(())
 }
 
+/// TXT records whose text is valid UTF-8 as a whole but is cut into character-strings at arbitrary byte
+/// positions (inside multi-byte characters), with non-ASCII keys, ';' and '=' in all places
+type TxtIn = (Vec<u8>, Vec<u16>);
+
+fn txt_strategy(_t: Tier) -> BoxedStrategy<TxtIn> {
+    use proptest::collection::vec;
+    (vec(any::<u8>(), 0..60), vec(any::<u16>(), 0..5)).boxed()
+}
+
+fn check_txt(input: &TxtIn, case: &mut Case) -> Result<(), Fail> {
+    let pool = ['a', 'k', 'v', '=', ';', 'é', '漢', '😀', '\u{13b}', ' ', 'É'];
+    let text: String = input.0.iter().map(|b| pool[*b as usize % pool.len()]).collect();
+    let bytes = text.as_bytes();
+    let mut cuts: Vec<usize> = input.1.iter().map(|c| crate::gen::pick(*c, bytes.len() + 1)).collect();
+    cuts.push(0);
+    cuts.push(bytes.len());
+    cuts.sort();
+    cuts.dedup();
+    let mut strs = Vec::new();
+    for w in cuts.windows(2) {
+        for chunk in bytes[w[0]..w[1]].chunks(255) {
+            strs.push(Bytes(chunk.to_vec()));
+        }
+    }
+    if strs.is_empty() {
+        strs.push(Bytes(vec![]));
+    }
+    if strs.iter().any(|s| std::str::from_utf8(s).is_err()) {
+        case.class("piece-invalid-utf8-whole-valid");
+    }
+    let rec = ARecord { name: AName::from_strs(&["t", "local"]), class: 1, cache_flush: false, ttl: 1, rdata: ARData::Typed { code: 16, fields: vec![Val::Strs(strs)] } };
+    let m = encode_message(&packet_with_answer(rec), &EncOpts::plain());
+    let accepted = inspect_bytes(&m, case)?;
+    ensure!(accepted, "c12:txt-rejected", "a well-formed TXT record was rejected");
+    case.nontrivial = text.chars().any(|c| !c.is_ascii());
+    Ok(())
+}
+
 pub fn def() -> CheckDef {
     CheckDef {
         id: "C12",
-        rule: "parser-accepted inputs (reference encodings as in C11 whose labels, character strings and TXT strings are biased to invalid UTF-8, NUL, '.', '\\\\', '=', ';', empty and maximal lengths; plus accepted mutated encodings); every public observer is applied to the packet and to every question, record, name, label, character string and RDATA under panic capture: Debug, Display/to_string, clone, into_owned, ==, Hash, is_link_local, iter, is_subdomain_of/without against the other names of the packet, match_qtype/match_qclass against the packet's questions and all special QTYPE/QCLASS values, TXT attributes / long_attributes / String::try_from, SVCB params, NULL data. Metamorphic: valid UTF-8 renders verbatim; String::try_from is Ok iff the bytes are UTF-8. Non-trivial = accepted and at least one name or string with a byte outside printable ASCII (or empty/maximal)",
+        rule: "parser-accepted inputs (reference encodings as in C11 whose labels, character strings and TXT strings are biased to invalid UTF-8, NUL, '.', '\\\\', '=', ';', empty and maximal lengths; plus accepted mutated encodings, plus TXT records whose text is valid UTF-8 as a whole but is cut into character-strings inside multi-byte characters, with non-ASCII keys and ';' / '=' anywhere); every public observer is applied to the packet and to every question, record, name, label, character string and RDATA under panic capture: Debug, Display/to_string, clone, into_owned, ==, Hash, is_link_local, iter, is_subdomain_of/without against the other names of the packet, match_qtype/match_qclass against the packet's questions and all special QTYPE/QCLASS values, TXT attributes / long_attributes / String::try_from, SVCB params, NULL data. Metamorphic: valid UTF-8 renders verbatim; String::try_from is Ok iff the bytes are UTF-8. Non-trivial = accepted and at least one name or string with a byte outside printable ASCII (or empty/maximal)",
         assumptions: vec!["WireFormat::len is crate-private and not an observer"],
         sections: vec![
             Box::new(ReplayOnly { name: "fuzz-bytes", check: check_raw }),
             Box::new(PropSection { name: "observers", rule: "reference encodings with hostile bytes", strategy: super::c11::strategy_pub, cases: (200_000, 2_000_000), check }),
+            Box::new(PropSection { name: "txt-text", rule: "UTF-8 text cut into strings at arbitrary byte positions", strategy: txt_strategy, cases: (100_000, 1_000_000), check: check_txt }),
             Box::new(PropSection { name: "mutated", rule: "accepted mutated encodings", strategy: super::c01::mutated_strategy, cases: (200_000, 2_000_000), check: check_mutated }),
         ],
     }
